@@ -13,6 +13,7 @@ import (
 	"github.com/libp2p/go-libp2p/core/crypto"
 
 	"github.com/ucan-wg/go-ucan/did"
+	"github.com/ucan-wg/go-ucan/internal/stream"
 	"github.com/ucan-wg/go-ucan/token/internal/envelope"
 )
 
@@ -145,7 +146,7 @@ func Decode(b []byte, decFn codec.Decoder) (*Token, error) {
 
 // DecodeReader is the same as Decode, but accept an io.Reader.
 func DecodeReader(r io.Reader, decFn codec.Decoder) (*Token, error) {
-	node, err := ipld.DecodeStreaming(r, decFn)
+	node, err := ipld.DecodeStreaming(stream.Progress(r), decFn)
 	if err != nil {
 		return nil, err
 	}
